@@ -15,6 +15,9 @@
                                           only for a Characters-mode element, which no table set lets one build);
                   Known_refhead         : an element recorded in the reference-origin index has a sub-element as its
                                           first content item (cannot occur when reference elements have no children).
+   Real tables: C03_charsleaf_inv, C03_originsref_inv (all table sets), C03_inv_refchars, C03_refchars_real [F],
+   C03_inv_real / C03_histories_real: on RT only Known_failed_reparent can break TreeInv.
+   Extended alphabet: C03_core_inv2_partial (pending: OpLoad).
    Navigation: C03_position*, C03_walk_preorder, C03_dfs_ids_preorder, C03_iter_dfs*, C03_no_fuel_*.
    Stale handles: C03_live_or_detached, C03_detached_not_live, C03_stale*, (DetFiles = detached chains carry no local
    file sets; needed only by the four requests that ask for min_version and not for the model).
@@ -23,7 +26,8 @@
    C03_stale_reachable need no extra hypothesis. *)
 From AV Require Import Base.Bytes Base.Outcome Hash.HashModel Tree.Heap Tree.Ops Tree.Script Tree.Inv Tree.Iter
   Tree.InvProofsTree Tree.InvProofsNav Tree.InvProofs Tree.StaleProofs Tree.IterProofs Tree.IterProofsFile
-  Tree.InvProofsDetFiles Tree.InvProofsDetFilesMain Tree.InvProofsOp2 Tree.InvExamples.
+  Tree.InvProofsDetFiles Tree.InvProofsDetFilesMain Tree.InvProofsOp2 Tree.InvExamples
+  Tree.InvProofsChars Tree.InvProofsChars5 Tree.InvProofsOrigins3 Tree.InvProofsReal Tree.InvProofsRealTables Spec.SpecReal.
 From AV Require Import Tree.Script2.
 Open Scope string_scope.
 Open Scope list_scope.
@@ -76,6 +80,62 @@ Theorem C03_core_inv2_partial :
     run_op2 T tab_el tab_at tab_en check_fn float_parse float_fmt LATEST name_index name_definition_ref
             attr_schema_location root_attrs o w = Val (r, w') -> Core w'.
 Proof. exact Core_step2_partial. Qed.
+
+(* ---------- the artefact classes are empty on the real tables ---------- *)
+(* CharsLeaf: an element whose content mode is Characters has no sub-elements; kept by every operation, every table set *)
+Theorem C03_charsleaf_inv :
+  forall (T : tables) (tab_el tab_en : nametab) (check_fn : N -> list N -> res bool) (LATEST : N)
+         (root_attrs : list (N * cdata)) (o : op) (w : world) (r : out value) (w' : world),
+    Core w -> CharsLeaf T w -> Inv.run T tab_el tab_en check_fn LATEST root_attrs o w = Val (r, w') -> CharsLeaf T w'.
+Proof. exact CharsLeaf_step. Qed.
+
+(* no operation changes the type of a node *)
+Theorem C03_types_kept :
+  forall (T : tables) (tab_el tab_en : nametab) (check_fn : N -> list N -> res bool) (LATEST : N)
+         (root_attrs : list (N * cdata)) (o : op) (w : world) (r : out value) (w' : world) (i : id) (n : node),
+    Core w -> CharsLeaf T w -> Inv.run T tab_el tab_en check_fn LATEST root_attrs o w = Val (r, w') ->
+    w_nodes w i = Some n -> exists n', w_nodes w' i = Some n' /\ n_type n' = n_type n.
+Proof. exact types_kept. Qed.
+
+(* OriginsRef: every element recorded in the reference-origin index is an allocated node of a reference type *)
+Theorem C03_originsref_inv :
+  forall (T : tables) (tab_el tab_en : nametab) (check_fn : N -> list N -> res bool) (LATEST : N)
+         (root_attrs : list (N * cdata)) (o : op) (w : world) (r : out value) (w' : world),
+    Core w -> CharsLeaf T w -> OriginsRef T w ->
+    Inv.run T tab_el tab_en check_fn LATEST root_attrs o w = Val (r, w') -> OriginsRef T w'.
+Proof. exact OriginsRef_step. Qed.
+
+(* for every table set whose reference types are Characters-mode types: only failed re-parenting breaks TreeInv *)
+Theorem C03_inv_refchars :
+  forall (T : tables) (tab_el tab_en : nametab) (check_fn : N -> list N -> res bool) (LATEST : N)
+         (root_attrs : list (N * cdata)) (o : op) (w : world) (r : out value) (w' : world),
+    RefChars T -> RealInv T w ->
+    Inv.Known_failed_reparent T tab_el tab_en check_fn LATEST root_attrs w o = false ->
+    Inv.run T tab_el tab_en check_fn LATEST root_attrs o w = Val (r, w') -> RealInv T w'.
+Proof. exact RealInv_step. Qed.
+
+(* [F] the regenerated tables *)
+Theorem C03_refchars_real : ref_chars_b RT = true /\ RefChars RT.
+Proof. exact refchars_real_both. Qed.
+
+Theorem C03_inv_real :
+  forall (tab_el tab_en : nametab) (check_fn : N -> list N -> res bool) (LATEST : N)
+         (root_attrs : list (N * cdata)) (o : op) (w : world) (r : out value) (w' : world),
+    Inv.Known_failed_reparent RT tab_el tab_en check_fn LATEST root_attrs w o = false ->
+    TreeInv w /\ CharsLeaf RT w /\ OriginsRef RT w ->
+    Inv.run RT tab_el tab_en check_fn LATEST root_attrs o w = Val (r, w') ->
+    TreeInv w' /\ CharsLeaf RT w' /\ OriginsRef RT w'.
+Proof. exact inv_real. Qed.
+
+Theorem C03_histories_real :
+  forall (tab_el tab_en : nametab) (check_fn : N -> list N -> res bool) (LATEST : N)
+         (root_attrs : list (N * cdata)) (l : list op) (w w' : world),
+    RealInv RT w -> Inv.clean_rep_ops RT tab_el tab_en check_fn LATEST root_attrs l w = true ->
+    Inv.run_ops RT tab_el tab_en check_fn LATEST root_attrs l w = Val w' -> RealInv RT w'.
+Proof. exact RealInv_histories_real. Qed.
+
+Theorem C03_realinv_init : forall T : tables, RealInv T empty_world.
+Proof. exact RealInv_empty. Qed.
 
 (* ---------- navigation ---------- *)
 Theorem C03_position :
